@@ -33,6 +33,11 @@ ValidChain(ch) ==
 Chains == { <<m>> : m \in Compressors } \cup { <<p, m>> : p \in PreFilters, m \in Compressors }
           \cup { <<m, "AES">> : m \in Compressors } \cup { <<p, m, "AES">> : p \in PreFilters, m \in Compressors }
           \cup { <<"AES">> }
+          \* two pre-filters in front of a native compressor (one raw lzma chain of three filters), optionally encrypted
+          \* (with LZMA1 as the compressor py7zr writes such chains but cannot read them back - its reader splits BCJ off LZMA1 and is left
+          \*  with a lone pre-filter; the documentation lists no such chain, so they are outside C01's quantifier: see DESIGN.md 11.7)
+          \cup { <<x[1], x[2], "LZMA2">> : x \in { y \in {"Delta", "X86", "ARM"} \X {"Delta", "X86", "ARM"} : y[1] # y[2] } }
+          \cup { <<x[1], x[2], "LZMA2", "AES">> : x \in { y \in {"Delta", "X86"} \X {"Delta", "X86"} : y[1] # y[2] } }
 
 DocListed == { <<"Delta", "LZMA2">>, <<"X86", "LZMA2">>, <<"ARM", "LZMA2">>, <<"X86", "LZMA">>, <<"LZMA2">>, <<"LZMA">>, <<"BZip2">>,
                <<"Deflate">>, <<"ZStd">>, <<"PPMd">>, <<"Brotli">>, <<"Delta", "LZMA2", "AES">>, <<"X86", "LZMA2", "AES">>,
